@@ -111,15 +111,19 @@ fn relations_f64(tape: &[u32], st: &mut Stats) -> CaseResult {
     // interior points w.r.t. the derivative of that order
     let mut points: Vec<Vec<f64>> = vec![];
     let mut refs: Vec<f64> = vec![];
+    let mut senss: Vec<f64> = vec![];
     let mut tries = 0;
     while points.len() < 6 && tries < 20 {
         tries += 1;
         let p = gen_point(&mut t, n);
         if let Some(r) = ref_derivative(&tree, &idxs, &p, &seq) {
             if r.is_finite() && r.abs() < 1e6 {
-                // all orders below must be fine as well (library evaluates nested formulas)
-                points.push(p);
-                refs.push(r);
+                let f = |q: &[f64]| ref_derivative(&tree, &idxs, q, &seq);
+                if let Some(sens) = sensitivity(&f, &p) {
+                    points.push(p);
+                    refs.push(r);
+                    senss.push(sens);
+                }
             }
         }
     }
@@ -142,7 +146,15 @@ fn relations_f64(tape: &[u32], st: &mut Stats) -> CaseResult {
     });
     match res {
         Err(p) => Err(fail("C09/panic", format!("differentiating `{text}` along {seq:?} panics: {p}"), describe())),
-        Ok(Err(e)) => Err(fail("C09/error", format!("differentiating `{text}` along valid indices {seq:?} fails: {e}"), describe())),
+        Ok(Err(e)) => {
+            if points.is_empty() {
+                // e.g. (0^(-x))^0: the library refuses 0^0 and the reference has no interior point either
+                st.class("differentiation refused where the reference has no interior point (not judged)");
+                Ok(())
+            } else {
+                Err(fail("C09/error", format!("differentiating `{text}` along valid indices {seq:?} fails: {e}"), describe()))
+            }
+        }
         Ok(Ok((anames, routes))) => {
             for (what, vals, dnames) in &routes {
                 if dnames != &anames {
@@ -159,7 +171,7 @@ fn relations_f64(tape: &[u32], st: &mut Stats) -> CaseResult {
                         }
                         Ok(x) => {
                             let tol = if seq.len() <= 1 { 1e-6 } else { 1e-5 };
-                            if !close(*x, refs[k], tol) {
+                            if !close_cond(*x, refs[k], tol, senss[k]) {
                                 return Err(fail(
                                     &format!("C09/{what}/value"),
                                     format!("{what} of `{text}` along {seq:?} at {:?}: {x}, derivative of that order is {}", points[k], refs[k]),
@@ -218,7 +230,14 @@ fn relations_exact(tape: &[u32], st: &mut Stats) -> CaseResult {
     });
     match res {
         Err(p) => Err(fail("C09/exact/panic", format!("differentiating `{text}` along {seq:?} panics: {p}"), describe())),
-        Ok(Err(e)) => Err(fail("C09/exact/error", format!("differentiating `{text}` along valid indices {seq:?} fails: {e}"), describe())),
+        Ok(Err(e)) => {
+            if points.is_empty() {
+                st.class("differentiation refused where the reference has no defined point (not judged)");
+                Ok(())
+            } else {
+                Err(fail("C09/exact/error", format!("differentiating `{text}` along valid indices {seq:?} fails: {e}"), describe()))
+            }
+        }
         Ok(Ok((anames, routes))) => {
             for (what, vals, dnames) in &routes {
                 if dnames != &anames {
